@@ -52,6 +52,7 @@ type dop struct {
 }
 
 type decCase struct {
+	NoCB           bool // no OnTargetBitrateChange callback registered
 	Min, Max, Init int64
 	Ops            []dop
 	Obs            [][4]int64
@@ -67,28 +68,44 @@ func runDec(c decCase, fails *[]cq.ImplFailure) decCase {
 		panic(err)
 	}
 	cbCh := make(chan int64, 1024)
-	bwe.OnTargetBitrateChange(func(b int) { cbCh <- int64(b) })
+	if !c.NoCB {
+		bwe.OnTargetBitrateChange(func(b int) { cbCh <- int64(b) })
+	}
 	c.Obs, c.CB = nil, nil
+	hung := false
 	lossBitrate := c.Init
 	for i := range c.Ops {
 		o := &c.Ops[i]
 		nBefore := len(p.snapshot())
 		var target int64
-		switch o.Kind {
-		case "delay":
-			target = int64(gcc.VerifOnDelayStats(bwe, o.Use, o.St))
-			o.Raw = target
-		case "loss":
-			b, a := gcc.VerifLossUpdate(bwe, o.N, o.Lost, o.Rearm)
-			o.Changed = a != b
-			o.Raw = int64(a)
-			target = -1
-		default:
-			gcc.VerifSetReceivedRate(bwe, int(o.Rate))
-			target = -1
+		opDone := make(chan struct{})
+		go func() {
+			defer close(opDone)
+			switch o.Kind {
+			case "delay":
+				target = int64(gcc.VerifOnDelayStats(bwe, o.Use, o.St))
+				o.Raw = target
+			case "loss":
+				b, a := gcc.VerifLossUpdate(bwe, o.N, o.Lost, o.Rearm)
+				o.Changed = a != b
+				o.Raw = int64(a)
+				target = -1
+			default:
+				gcc.VerifSetReceivedRate(bwe, int(o.Rate))
+				target = -1
+			}
+		}()
+		select {
+		case <-opDone:
+		case <-time.After(3 * time.Second):
+			*fails = append(*fails, cq.ImplFailure{Kind: "hang", Detail: fmt.Sprintf("op %d (%s) did not return within 3s", i, o.Kind), Case: c})
+			hung = true
+		}
+		if hung {
+			break
 		}
 		logNow := p.snapshot()
-		for k := nBefore; k < len(logNow); k++ {
+		for k := nBefore; k < len(logNow) && !c.NoCB; k++ {
 			select {
 			case v := <-cbCh:
 				c.CB = append(c.CB, v)
@@ -113,6 +130,12 @@ func runDec(c decCase, fails *[]cq.ImplFailure) decCase {
 	default:
 	}
 	c.Pacer = p.snapshot()
+	if c.NoCB {
+		c.CB = c.Pacer // nothing to compare: the callback log is defined as the pacer log
+	}
+	if hung {
+		return c
+	}
 	done := make(chan error, 1)
 	go func() { done <- bwe.Close() }()
 	select {
@@ -177,6 +200,10 @@ func genDec(r *rand.Rand) (decCase, []string) {
 		c.Max = c.Min + int64(r.Intn(20000000))
 		c.Init = c.Min + r.Int63n(c.Max-c.Min+1)
 	}
+	if r.Intn(4) == 0 {
+		c.NoCB = true
+		bucket += "+no-callback"
+	}
 	n := 3 + r.Intn(30)
 	for i := 0; i < n; i++ {
 		switch r.Intn(7) {
@@ -202,6 +229,7 @@ func genDec(r *rand.Rand) (decCase, []string) {
 }
 
 type e2eCase struct {
+	NoCB           bool
 	Min, Max, Init int64
 	Seed           int64
 	Pattern        string
@@ -222,11 +250,13 @@ func runE2E(c e2eCase, fails *[]cq.ImplFailure) e2eCase {
 	var cbMu sync.Mutex
 	var cbs []int64
 	var cbWG sync.WaitGroup
-	bwe.OnTargetBitrateChange(func(b int) {
-		cbMu.Lock()
-		cbs = append(cbs, int64(b))
-		cbMu.Unlock()
-	})
+	if !c.NoCB {
+		bwe.OnTargetBitrateChange(func(b int) {
+			cbMu.Lock()
+			cbs = append(cbs, int64(b))
+			cbMu.Unlock()
+		})
+	}
 	_ = cbWG
 	info := &interceptor.StreamInfo{SSRC: 77, RTPHeaderExtensions: []interceptor.RTPHeaderExtension{{URI: twccURI, ID: 1}}}
 	w := bwe.AddStream(info, interceptor.RTPWriterFunc(func(*rtp.Header, []byte, interceptor.Attributes) (int, error) { return 0, nil }))
@@ -299,6 +329,9 @@ func runE2E(c e2eCase, fails *[]cq.ImplFailure) e2eCase {
 	cbMu.Lock()
 	c.CB = append([]int64{}, cbs...)
 	cbMu.Unlock()
+	if c.NoCB {
+		c.CB = c.Pacer
+	}
 	c.Final = int64(bwe.GetTargetBitrate())
 
 	return c
@@ -364,7 +397,7 @@ func main() {
 	res := make([]e2eCase, ne)
 	sem := make(chan struct{}, 12)
 	for i := 0; i < ne; i++ {
-		c := e2eCase{Seed: r.Int63(), Pattern: pats[i%len(pats)]}
+		c := e2eCase{Seed: r.Int63(), Pattern: pats[i%len(pats)], NoCB: i%4 == 3}
 		switch i % 3 {
 		case 0:
 			c.Min, c.Max, c.Init = 5000, 50000000, 10000
